@@ -286,12 +286,39 @@ def probe_wrapper(ctx):
         ctx.known_finding(key)
 
 
+SEQ_IN_CHOICE_DTD = "<!ELEMENT unit (alpha|(leaf,head)|tail)>\n<!ELEMENT alpha EMPTY>\n<!ELEMENT leaf EMPTY>\n<!ELEMENT head EMPTY>\n<!ELEMENT tail EMPTY>\n"
+
+
+def probe_seq_in_choice(ctx):
+    """Known finding: a sequence that is one alternative of a choice is flattened into the choice; with compound fields
+    the members share one single-valued field and the second one silently replaces the first."""
+    key = "C16/sequence-inside-choice-collapses"
+    ctx.evals()
+    doc = "<unit><leaf/><head/></unit>"
+
+    def rt(cfg):
+        res = gen.generate({"main.dtd": SEQ_IN_CHOICE_DTD}, entry=["main.dtd"], config=cfg, route="api", hooks=False, timeout=120)
+        if res.status != "ok":
+            return None
+        run = gen.run_in_package(res.files, POST_SCRIPT, args={"modules": gen.package_modules(res.files), "docs": [doc]}, timeout=120)
+        return run.result[0] if run.status == "ok" else None
+
+    bad, good = rt({"output.compound_fields.enabled": True}), rt({})
+    if bad is None or good is None or "out" not in good:
+        ctx.inconc(f"probe {key} could not run")
+        return
+    n = lambda r: len(etree.fromstring(r["out"].encode())) if "out" in r else -1  # noqa: E731
+    if n(bad) != 2 and n(good) == 2:
+        ctx.known_finding(key)
+
+
 def run_shard(ctx):
     rng = ctx.rng
     if ctx.shard == 0:
         probe_namespace(ctx)
         probe_tail(ctx)
         probe_wrapper(ctx)
+        probe_seq_in_choice(ctx)
     n = ctx.per_shard(ctx.pick(280, 8000))
     k = 0
     while k < n and (ctx.time_left() > 0 or len(ctx.fingerprints) < MIN_DISTINCT[ctx.tier] // ctx.nshards + 1):
